@@ -575,6 +575,25 @@ fn head_rows(c: &Clause, db: &Db) -> Result<BTreeSet<KRow>, RefError> {
         }
         return Ok(out);
     }
+    // Aggregates range over distinct valuations of ALL body variables; every `_` in a positive
+    // atom is its own anonymous variable (the engine and standard Datalog read it that way:
+    // c(G, count<V>) <- s(G, V, _) counts distinct (G, V, _) bindings).
+    let named = {
+        let mut c2 = c.clone();
+        let mut k = 200u8;
+        for l in &mut c2.body {
+            if let Lit::Pos(a) = l {
+                for t in &mut a.args {
+                    if matches!(t, T::W) {
+                        *t = T::V(k);
+                        k += 1;
+                    }
+                }
+            }
+        }
+        c2
+    };
+    let vals = body_valuations(&named, db)?;
     // group by the plain head terms
     let mut groups: BTreeMap<KRow, Vec<&BTreeMap<u8, (i64, i64)>>> = BTreeMap::new();
     for env in &vals {
